@@ -49,6 +49,9 @@ func leavesC04() []*qast.Node {
 	for _, p := range []string{`b*\/`, `\/b*`, `\/b?\/c`, `a\/*\/`} {
 		ls = append(ls, qast.Lf(qast.Leaf{Kind: qast.LEq, Field: "s", Val: qast.Wi(p)}))
 	}
+	// patterns containing the SQL string delimiter
+	ls = append(ls, qast.Lf(qast.Leaf{Kind: qast.LEq, Field: "s", Val: qast.Re("/it's/")}))
+	ls = append(ls, qast.Lf(qast.Leaf{Kind: qast.LEq, Field: "s", Val: qast.Wi(`b\'c*`)}))
 	ls = append(ls, qast.Lf(qast.Leaf{Kind: qast.LEq, Field: "s", Val: qast.Q("*")}))
 	ls = append(ls, qast.Lf(qast.Leaf{Kind: qast.LEq, Field: "s", Val: qast.Q("a?")}))
 	for _, re := range []string{"/b/", "/ab/", "/abc/", "/a*/"} {
